@@ -18,6 +18,13 @@ CHECKS = {
              "the result must equal the input. " + ESPACE,
         note="Trusted: the reference model (mc/ref/semantics.py) and its UNSPECIFIED list; values/lengths outside the alphabets are not covered.",
         ref="3/C01"),
+    "C02": dict(
+        technique="explicit-state exhaustive enumeration of a deviation-bounded input space; eager vs lazy differential plus reference-model report comparison",
+        text="Every case of the C01 space is validated eagerly and lazily (pandas; the 'frame' base also on polars): raises(lazy) <=> raises(eager), "
+             "the eager error is among the lazy errors, the lazy failure_cases multiset equals the reference model's offending cells plus one "
+             "scalar entry per frame-level violation, error_counts equals a recount of schema_errors by reason, and the message has one entry per error.",
+        note="Trusted: reference model where it declares the report defined; structural normalisations listed in mc/props/c02.py (dict-valued frame-check rows, MultiIndex scalar rows).",
+        ref="3/C02"),
     "C18": dict(
         technique="explicit-state BFS over config_context histories + exhaustive enumeration of environment settings and depth decomposition",
         text="BFS over all enter/exit/exit-by-exception/probe histories of the real config_context up to nesting 3 (thorough 4), each "
